@@ -129,7 +129,7 @@ def features(case, involved):
     opts = d.get("options") or {}
     keys = [p[0] for p in case["input"]["v"] if isinstance(p[0], str)]
     by_any = {}
-    for fd in d["fields"]:
+    for fd in dspec.all_fields(d):
         by_any[fd["name"]] = fd
         by_any[dspec.out_name(fd)] = fd
     fds = []
@@ -155,6 +155,8 @@ def features(case, involved):
                 tags.add("ignore_alias_conflicts")
         if mine and f.get("no_input"):
             tags.add("no_input-fed")
+        if d.get("parent") and any(pf["name"] == fd["name"] for pf in d["parent"]["fields"]):
+            tags.add("redeclared" if fd in d["fields"] else "inherited")
         if not mine:
             tags.add("field-omitted")
             if opts.get("ignore_required"):
@@ -234,9 +236,9 @@ def nontrivial(case):
     d = case["decl"]
     keys = [p[0] for p in case["input"]["v"]]
     opts = d.get("options") or {}
-    primary = {fd["name"] for fd in d["fields"]}
+    primary = {fd["name"] for fd in dspec.all_fields(d)}
     all_names = {}
-    for fd in d["fields"]:
+    for fd in dspec.all_fields(d):
         for n in dspec.in_names(fd):
             all_names[n] = fd["name"]
             all_names[n.lower()] = fd["name"]
@@ -245,9 +247,9 @@ def nontrivial(case):
         if not isinstance(k, str):
             continue
         if k not in primary:
-            return True  # alias, case variant or extra key
+            return True  # alias, case variant, extra key, or a name only the parent's declaration accepted
         seen[k] = seen.get(k, 0) + 1
-    for fd in d["fields"]:
+    for fd in dspec.all_fields(d):
         f = fd.get("f") or {}
         if fd["name"] not in keys and ("default" in f or "factory" in f or "plain_default" in f):
             return True
@@ -257,7 +259,7 @@ def nontrivial(case):
 
 
 def case_strategy():
-    decls = dspec.decl_specs(options=dspec.CLASS_OPTIONS)
+    decls = dspec.decl_specs(options=dspec.CLASS_OPTIONS, inherit=True)
     return decls.flatmap(lambda d: st.fixed_dictionaries({"decl": st.just(d), "input": dspec.inputs_for(d)}))
 
 
@@ -300,6 +302,10 @@ def campaign(ctx):
         r = run_case(case)
         ctx.label(f"status_{r['status']}")
         if r["status"] not in ("discarded", "other"):
+            if case["decl"].get("parent"):
+                ctx.label("subclass_of_a_generated_parent")
+                if any(p[0] in dspec.stale_names(case["decl"]) for p in case["input"]["v"]):
+                    ctx.label("input_uses_a_name_only_the_parent_accepted")
             if nontrivial(case):
                 ctx.nt(case)
                 ctx.sample(r["status"], case)
